@@ -292,3 +292,42 @@ pub fn library_handshake_len(tap: &[u8]) -> Result<usize, String> {
         _ => Err("library wrote no command after its greeting".into()),
     }
 }
+
+/// Connect two real sockets through an in-memory wire: both production
+/// handshakes run against each other. Returns the wire and the identity under
+/// which each side registered the other.
+pub async fn connect_pair(
+    a: Arc<dyn MultiPeerBackend>,
+    b: Arc<dyn MultiPeerBackend>,
+) -> Result<(crate::pipe::Wire, Vec<u8>, Vec<u8>), String> {
+    let (ca, ra, wa) = Conn::new();
+    let (cb, rb, wb) = Conn::new();
+    let mut wire = crate::pipe::Wire::new(ca, cb);
+    let mut fa = sim::Managed::new(attach_future(a, ra, wa));
+    let mut fb = sim::Managed::new(attach_future(b, rb, wb));
+    let mut ra_res = None;
+    let mut rb_res = None;
+    for _ in 0..200 {
+        if ra_res.is_none() {
+            if let Ok(Some(r)) = fa.drive().await {
+                ra_res = Some(r);
+            }
+        }
+        if rb_res.is_none() {
+            if let Ok(Some(r)) = fb.drive().await {
+                rb_res = Some(r);
+            }
+        }
+        let moved = wire.pump(usize::MAX);
+        if ra_res.is_some() && rb_res.is_some() {
+            break;
+        }
+        if moved == 0 && !fa.woken() && !fb.woken() {
+            return Err("handshake between two library sockets made no progress".into());
+        }
+    }
+    match (ra_res, rb_res) {
+        (Some(Ok(ia)), Some(Ok(ib))) => Ok((wire, ia, ib)),
+        (x, y) => Err(format!("lib-to-lib handshake failed: {x:?} / {y:?}")),
+    }
+}
